@@ -510,6 +510,72 @@ fn ring<T: Tier, M: MatN<T, N>, const N: usize>(rep: &mut Report) {
     );
 }
 
+
+/// float tiers: matrices that are *almost* of a special shape. The approximate predicates of the library (`is_identity`,
+/// `is_diagonal`, `is_symmetric`, `is_zero`: ulps comparisons with tolerances up to 1e-6) are the natural guards of a
+/// fast path; a short cut taken on their word is wrong by the part they ignore, which is far above rounding here
+fn nearly_special<T: Tier + Dom<M = Sh>, const N: usize>(shape: usize, di: usize) -> (&'static str, [[T; N]; N]) {
+    let g: [[T; N]; N] = mat_from_r(&alphabet::generic(N * N, 1));
+    let h: [[T; N]; N] = mat_from_r(&alphabet::generic(N * N, 2));
+    let c = |x: f64| num_traits::cast::<f64, T>(x).unwrap();
+    // the part a tolerant predicate ignores: exactly absent, below the scalar epsilon, 2^-30, 2^-22 (times entries of size 0.1..20)
+    let d = [0.0, T::U / 64.0, 2f64.powi(-30), 2f64.powi(-22)][di];
+    let mut m = [[T::zero(); N]; N];
+    let name = ["identity", "diagonal", "symmetric", "scaled identity", "zero"][shape];
+    for cc in 0..N {
+        for r in 0..N {
+            let off = c(d * h[cc][r].f() / 8.0);
+            m[cc][r] = match shape {
+                0 => (if cc == r { T::one() } else { T::zero() }) + off,
+                1 => (if cc == r { g[cc][cc] } else { T::zero() }) + if cc == r { T::zero() } else { off },
+                2 => g[cc.min(r)][cc.max(r)] + if cc < r { off } else { T::zero() },
+                3 => (if cc == r { c(2.5) } else { T::zero() }) + if cc == r { T::zero() } else { off },
+                _ => off,
+            };
+        }
+    }
+    (name, m)
+}
+fn near_special<T: Tier + Dom<M = Sh>, M: MatN<T, N>, const N: usize>(rep: &mut Report)
+where
+    M: std::ops::Mul<M, Output = M> + std::ops::Add<M, Output = M> + std::ops::Sub<M, Output = M> + std::ops::Mul<M::V, Output = M::V>,
+{
+    rep.cases(
+        &format!("nearly-special/{}", M::NAME),
+        T::NAME,
+        "a generic A and B nearly {identity, diagonal, symmetric, scaled identity, zero} x {exactly, off by a few roundings, by 2^-30, by 2^-22}: A*B, B*A, B*B, A+B, A-B, B*v, transpose(B), trace, diagonal against the model",
+        5 * 4,
+        Guard::states(20).distinct(20),
+        |i, ctx| {
+            let (name, b) = nearly_special::<T, N>(i / 4, i % 4);
+            let a: [[T; N]; N] = mat_from_r(&alphabet::generic(N * N, 0));
+            let v: [T; N] = vec_from_r(&alphabet::generic(N, 1));
+            ctx.describe(|| format!("{} A generic, B nearly {} (variant {}): {:?}", M::NAME, name, i % 4, b));
+            ctx.out(&i);
+            let (ca, cb, cv) = (M::mk(a), M::mk(b), M::V::mk(v));
+            let (ma, mb, mv) = (lift_m(a), lift_m(b), lift_v(v));
+            eq_m::<T, N>(ctx, &key("nearly-special/A*B"), (ca * cb).arr(), model::mmul(ma, mb));
+            eq_m::<T, N>(ctx, &key("nearly-special/B*A"), (cb * ca).arr(), model::mmul(mb, ma));
+            eq_m::<T, N>(ctx, &key("nearly-special/B*B"), (cb * cb).arr(), model::mmul(mb, mb));
+            eq_m::<T, N>(ctx, &key("nearly-special/A+B"), (ca + cb).arr(), model::madd(ma, mb));
+            eq_m::<T, N>(ctx, &key("nearly-special/A-B"), (ca - cb).arr(), model::madd(ma, model::mscale(mb, -Sh::one())));
+            eq_v::<T, N>(ctx, &key("nearly-special/B*v"), (cb * cv).arr(), model::mvec(mb, mv));
+            // reading and re-arranging elements is exact whatever the shape
+            same_slice(ctx, &key("nearly-special/transpose"), &flat_m(cb.transpose().arr()), &flat_m::<T, N>(std::array::from_fn(|cc| std::array::from_fn(|r| b[r][cc]))));
+            same_slice(ctx, &key("nearly-special/diagonal"), &cb.diagonal().arr(), &std::array::from_fn::<T, N, _>(|j| b[j][j]));
+            let mut tr = b[0][0].lift();
+            for j in 1..N {
+                tr = tr + b[j][j].lift();
+            }
+            eq_s::<T>(ctx, &key("nearly-special/trace"), cb.trace(), tr);
+        },
+    );
+}
+fn all_float<T: Tier + Dom<M = Sh>>(rep: &mut Report) {
+    near_special::<T, Matrix2<T>, 2>(rep);
+    near_special::<T, Matrix3<T>, 3>(rep);
+    near_special::<T, Matrix4<T>, 4>(rep);
+}
 fn all<T: Tier>(rep: &mut Report) {
     layout::<T, Matrix2<T>, 2>(rep);
     layout::<T, Matrix3<T>, 3>(rep);
@@ -536,5 +602,7 @@ fn main() {
     all::<Ex>(&mut rep);
     all::<f64>(&mut rep);
     all::<f32>(&mut rep);
+    all_float::<f64>(&mut rep);
+    all_float::<f32>(&mut rep);
     std::process::exit(rep.finish());
 }
